@@ -51,7 +51,7 @@ func propC08(w *World, r *Report) {
 	RunIterFreshControl(r)
 	r.Floor("deadguard", 10)
 	r.Floor("twinformula", 1)
-	r.Require("twinformula|opentype/gtab.LookupList|variable lookupHeaderLen|0", "the lookup header size is computed both in LookupList.encode and in LookupList.tryReorder and the two formulas must agree")
+	RunTwinGuarded(w, r, "opentype/gtab", "LookupList", "encode", "tryReorder")
 	r.Floor("sizeagree", 22)
 	r.Floor("mapdet", 12)
 }
